@@ -57,9 +57,14 @@ var windowFns = map[string]func(s *simrt.Sim, t *simrt.Task) bool{
 	"munmap-with-holders": winMunmapWithHolders,
 }
 
+var activeWindows = map[string]bool{}
+
 func installQuarantine(w *world, c *hlib.RunCtx) {
 	for k := range midAdd {
 		delete(midAdd, k)
+	}
+	for k := range activeWindows {
+		delete(activeWindows, k)
 	}
 	spec := c.Flag("windows")
 	if spec == "" || spec == "off" {
@@ -72,6 +77,7 @@ func installQuarantine(w *world, c *hlib.RunCtx) {
 			panic("unknown known-finding window " + name)
 		}
 		fns = append(fns, fn)
+		activeWindows[name] = true
 	}
 	s := w.s
 	s.Quarantine = func(t *simrt.Task) bool {
